@@ -146,16 +146,18 @@ def instances(tier, seed):
             yield dict(g, limit_sets=limit_sets)
 
 
-def make_body(verts, edges, limits):
+def make_body(verts, edges, limits, mutate=False):
     import networkx as nx
     from gcmpy.covers.mpcc import MPCC
 
     def body():
         G = nx.Graph()
         G.add_nodes_from(verts)
-        G.add_edges_from(edges)
+        G.add_edges_from(edges[:-1] if mutate else edges)
         out = None
-        for lim in limits:
+        for step, lim in enumerate(limits):
+            if mutate and step == 1:
+                G.add_edge(*edges[-1])       # the graph grows between the two calls: the final graph has `edges`
             out = MPCC(G, lim) if lim is not None else MPCC(G)
         return (sorted(out.nodes()), sorted(tuple(sorted(e)) for e in out.edges()),
                 {tuple(sorted(e)): out.edges[e].get("clique") for e in out.edges()}, out is G)
@@ -218,7 +220,10 @@ def run_instance(inst, tier):
     cliques = enumr.all_cliques(verts, edges, 2)
     big = [set(c) for c in cliques if len(c) >= 3]
     overlapping = any(len(a & b) >= 2 for a, b in itertools.combinations(big, 2))
-    for limits in inst["limit_sets"]:
+    runs = [(ls, False) for ls in inst["limit_sets"]]
+    if inst["second_call"] and len(edges) >= 2:
+        runs += [([0, 0], True), ([0, 3], True)]     # cover, add the last edge, cover again
+    for limits, mutate in runs:
         flagbox = {}
         limit = limits[-1] or 0
         first = []
@@ -227,7 +232,7 @@ def run_instance(inst, tier):
             bad = oracle(verts, edges, limit, leaf, cliques)
             if bad and not first:
                 first.append((bad, leaf.choices, leaf.run.resolved_calls()))
-        st = engine.explore(make_body(verts, edges, limits), on_leaf, max_points=4,
+        st = engine.explore(make_body(verts, edges, limits, mutate), on_leaf, max_points=4,
                             shuffle_alts=make_alts(flagbox), track_prob=False, recheck_every=13,
                             sig=repr, max_leaves=3_000_000)
         res.executions += st.leaves
@@ -241,8 +246,9 @@ def run_instance(inst, tier):
             res.truncated += 1
         if first:
             (key, msg), choices, calls = first[0]
-            res.violation(key, f"vertices={verts} edges={edges} limits={limits} order#{choices}: {msg}",
-                          {"n": n, "edges": inst["edges"], "labels": inst["labels"]}, limits=limits,
+            res.violation(key, f"vertices={verts} edges={edges} limits={limits}"
+                          f"{' (last edge added between the two calls)' if mutate else ''} order#{choices}: {msg}",
+                          {"n": n, "edges": inst["edges"], "labels": inst["labels"]}, limits=limits, mutate=mutate,
                           choices=choices, shuffled_order=[c[1] for c in calls if c[0] == "shuffle"])
     if overlapping:
         res.nontrivial.add((tuple(verts), tuple(edges)))
@@ -269,7 +275,7 @@ def replay(v):
     edges = sorted(tuple(sorted((lab[a], lab[b]))) for a, b in inst["edges"])
     cliques = enumr.all_cliques(verts, edges, 2)
     limits = v["limits"]
-    leaf = engine.execute_plain(make_body(verts, edges, limits), v["choices"], max_points=4,
+    leaf = engine.execute_plain(make_body(verts, edges, limits, v.get("mutate", False)), v["choices"], max_points=4,
                                 shuffle_alts=make_alts({}))
     print("vertices", verts, "edges", edges, "limits", limits)
     print("labels:", None if leaf.outcome is None else leaf.outcome[2], "exception:", leaf.exception)
